@@ -303,6 +303,7 @@ Proof.
         rewrite CO, SH. split; [lia|]. rewrite SH in L.
         assert (X : (hh <? length (s_heap s))%nat = false) by (apply Nat.ltb_ge; exact L).
         destruct code; cbn [delta_at]; rewrite ?X; cbn [delta_at]; apply cc_same; reflexivity.
+  - (* rtt *) apply OnH; [|reflexivity]. intros _ _. apply cc_same; reflexivity.
 Qed.
 
 (* ------------------------------------------------------------------ *)
